@@ -33,7 +33,11 @@ ForceLists(g, nmax, nt) == {l \in Lists(g, nmax, nt) : ForceDurationPre(l, 1)}
 
 Case(op, a, b, pre) == [op |-> op, a |-> a, b |-> b, pre |-> MkSubs(pre), pre2 |-> MkSubs(<<>>)]
 
+\* cues before zero are cues too (the STL reader returns them for a programme start later than the first timecodes):
+\* every list also shifted to the left by half the grid
+MoveLeft(l, k) == [i \in DOMAIN l |-> [l[i] EXCEPT !.s = @ - k, !.e = @ - k]]
 AddCases(z)      == {Case("add", d, 0, l) : d \in (0 - (2 * gG + 1))..gG, l \in Lists(gG, gN, gNT)}
+                    \cup {Case("add", d, 0, MoveLeft(l, (gG + 1) \div 2)) : d \in (0 - gG)..gG, l \in Lists(gG, gN, gNT) \ {<<>>}}
 AddInvCases(z)   == {Case("add+addinv", d, 0, l) : d \in ((0 - (2 * gG + 1))..gG) \ {0}, l \in Lists(gG, gN, gNT)}
 FragmentCases(z) == {Case("fragment", f, 0, l) : f \in 1..((gG + 1) \div 2), l \in SortedLists(gG, gN, gNT)}
 UnfragCases(z) == {Case("unfragment", 0, 0, l) : l \in Lists(gG, gN, gNT)}
